@@ -17,6 +17,7 @@ import importlib.abc
 import importlib.util
 import io
 import os
+import re
 import sys
 import types
 
@@ -24,7 +25,7 @@ import z3
 
 from . import core
 from .core import Unsupported
-from .values import (SxInt, SxBool, SxBytes, SxStr, SxChar, Numeral, WordItem, is_sym, any_sym, mkbool, has_sym, eq_term,
+from .values import (SxFloat, SxInt, SxBool, SxBytes, SxStr, SxChar, Numeral, WordItem, is_sym, any_sym, mkbool, has_sym, eq_term,
                      z3bool, sym_ite, concretize_small, _mkstr, _mkbytes, _char_in, _items,
                      HEXLOW, HEXUP, str_of)
 
@@ -154,7 +155,7 @@ def unregister(obj):
 
 
 def sx_len(x):
-    if isinstance(x, dict) and id(x) in _SIDE:
+    if isinstance(x, (dict, set)) and id(x) in _SIDE:
         return len(x) + len(_SIDE[id(x)][1])
     return len(x)
 
@@ -350,6 +351,8 @@ def sx_int(x=0, base=None):
         return x
     if isinstance(x, SxBool):
         return sym_ite(x, 1, 0)
+    if isinstance(x, SxFloat):
+        return x.trunc()
     if isinstance(x, (SxStr, SxChar)):
         return parse_int(str_of(x), 10 if base is None else base)
     if base is None:
@@ -591,6 +594,80 @@ def sx_fromhex(h):
     return bytes.fromhex(h)
 
 
+_SPEC_RE = re.compile(r"(?:(.)?([<>=^]))?([-+ ]?)(#?)(0?)(\d*)([bdxX]?)")
+
+
+def sx_format_spec(val, spec):
+    """format(<symbolic int>, spec) for the integer presentation types b, d, x, X with sign, '#', zero padding, fill,
+    alignment and width; everything else (grouping, precision, other types) is outside the modelled subset"""
+    if isinstance(val, SxBool):
+        return format(int(bool(val)), spec)
+    if not isinstance(val, SxInt):
+        if is_sym(val) and spec in ("", "s"):
+            return sx_str(val)
+        if is_sym(val):
+            m0 = re.fullmatch(r"(?:(.)?([<>^]))?(\d*)s?", spec)
+            if m0 is None:
+                raise Unsupported("format spec %r on symbolic text" % spec)
+            body = str_of(sx_str(val))
+            w = int(m0.group(3) or 0)
+            fill, al = m0.group(1) or " ", m0.group(2) or "<"
+            return {"<": body.ljust, ">": body.rjust, "^": body.center}[al](w, fill)
+        return format(val, spec)
+    m = _SPEC_RE.fullmatch(spec)
+    if m is None:
+        raise Unsupported("format spec %r on symbolic integer" % spec)
+    fill, align, sign, alt, zero, width, typ = m.groups()
+    width = int(width or 0)
+    neg = bool(val < 0)
+    mag = -val if neg else val
+    base = {"b": 2, "d": 10, "": 10, "x": 16, "X": 16}[typ]
+    digs = Numeral(mag, base, up=(typ == "X")).chars()
+    prefix = list({"b": "0b", "x": "0x", "X": "0X"}.get(typ, "")) if alt else []
+    sg = ["-"] if neg else ([sign] if sign in ("+", " ") and sign else [])
+    if zero and not align:
+        fill, align = "0", "="
+    fill = fill or " "
+    align = align or ">"
+    body = prefix + digs
+    pad = max(0, width - len(sg) - len(body))
+    if align == "=":
+        out = sg + prefix + [fill] * pad + digs
+    elif align == "<":
+        out = sg + body + [fill] * pad
+    elif align == "^":
+        out = [fill] * (pad // 2) + sg + body + [fill] * (pad - pad // 2)
+    else:
+        out = [fill] * pad + sg + body
+    return _mkstr(out)
+
+
+def sx_round(x, nd=None):
+    if isinstance(x, SxFloat):
+        return x.__round__(nd)
+    if isinstance(x, SxInt):
+        if nd is not None and not (isinstance(nd, int) and nd >= 0):
+            raise Unsupported("round(int, negative ndigits)")
+        return x
+    return round(x) if nd is None else round(x, nd)
+
+
+def sx_float(x=0.0):
+    if isinstance(x, SxInt):
+        return SxFloat.of_int(x)
+    if isinstance(x, SxFloat):
+        return x
+    return float(x)
+
+
+def sx_format_builtin(val, spec=""):
+    if is_sym(val) or is_sym(spec):
+        if is_sym(spec):
+            raise Unsupported("symbolic format spec")
+        return sx_format_spec(val, spec)
+    return format(val, spec)
+
+
 def sx_format(fmt, *a, **k):
     """'..{}..'.format(args): exact for plain '{}' fields, otherwise symbolic values are rendered
     by str()"""
@@ -614,7 +691,8 @@ def sx_format(fmt, *a, **k):
             raise Unsupported("format field %r" % field)
         if spec:
             if is_sym(val):
-                raise Unsupported("format spec on symbolic value")
+                out.extend(_items(sx_format_spec(val, spec)))
+                continue
             out.extend(format(val, spec))
             continue
         if conv == "r" and is_sym(val):
@@ -740,6 +818,13 @@ def _install_builtin_intercepts():
     register(min, _sx_min)
     register(re.findall, sx_findall_dots)
     register(base64.b64encode, sx_b64encode)
+    register(format, sx_format_builtin)
+    import math
+    register(math.floor, lambda x: x.__floor__() if isinstance(x, SxFloat) else (x if isinstance(x, SxInt) else math.floor(x)))
+    register(math.ceil, lambda x: x.__ceil__() if isinstance(x, SxFloat) else (x if isinstance(x, SxInt) else math.ceil(x)))
+    register(math.trunc, lambda x: x.trunc() if isinstance(x, SxFloat) else (x if isinstance(x, SxInt) else math.trunc(x)))
+    register(round, sx_round)
+    register(float, sx_float)
 
 
 _install_builtin_intercepts()
@@ -802,6 +887,8 @@ def __sx_call__(f, *a, **k):
             if id(slf) in _SIDE or any(has_sym(p[0]) for p in pairs) or any(has_sym(v) for v in k):
                 return _dict_method(slf, name, (pairs,) + tuple(a[1:]), k)
             return slf.update(pairs, **k)
+        elif isinstance(slf, set) and (id(slf) in _SIDE or (a and has_sym(a[0]))):
+            return _set_method(slf, name, a, k)
         elif isinstance(slf, dict) and (id(slf) in _SIDE or (a and has_sym(a[0])) or
                                         (name == "update" and a and isinstance(a[0], dict) and any(has_sym(kk) for kk in a[0]))):
             return _dict_method(slf, name, a, k)
@@ -895,7 +982,7 @@ def _dict_find(o, k):
         except TypeError:
             pass
     else:
-        for nk in list(o.keys()):
+        for nk in list(o.keys() if isinstance(o, dict) else o):
             if _keq(k, nk):
                 return ("native", nk)
     if side:
@@ -907,6 +994,50 @@ def _dict_find(o, k):
 
 def _dict_sym(o, k=None):
     return isinstance(o, dict) and (has_sym(k) or id(o) in _SIDE)
+
+
+def _set_sym(o, k=None):
+    return isinstance(o, set) and (has_sym(k) or id(o) in _SIDE)
+
+
+def _set_method(o, name, a, k):
+    """sets whose members contain symbolic values: members live in the same side list as symbolic dict keys
+    (entry [member, None]); membership is decided through the solver, a fork per candidate"""
+    side = _side(o) or []
+    if name == "add":
+        if _dict_find(o, a[0]) is None:
+            if has_sym(a[0]):
+                _side(o, True).append([a[0], None])
+            else:
+                o.add(a[0])
+        return None
+    if name in ("discard", "remove"):
+        hit = _dict_find(o, a[0])
+        if hit is None:
+            if name == "remove":
+                raise KeyError("symbolic member")
+            return None
+        if hit[0] == "native":
+            o.discard(hit[1])
+        else:
+            _side(o).remove(hit[1])
+        return None
+    if name == "__contains__":
+        return _dict_find(o, a[0]) is not None
+    if name == "clear":
+        o.clear()
+        del side[:]
+        return None
+    if name == "update":
+        for other in a:
+            for m in list(other):
+                _set_method(o, "add", (m,), {})
+        return None
+    if name == "pop":
+        if side:
+            return side.pop()[0]
+        return o.pop()
+    raise Unsupported("set.%s on a set with symbolic members" % name)
 
 
 def __sx_setitem__(o, k, v):
@@ -1188,6 +1319,8 @@ def _contains(item, cont):
             return mkbool(z3.Or(*[z3bool(_mkstr(its[i:i + n], force=True) == item)
                                   for i in range(len(its) - n + 1)]))
         raise TypeError("'in <string>' requires string as left operand")
+    if isinstance(cont, set) and _set_sym(cont, item):
+        return _dict_find(cont, item) is not None
     if isinstance(cont, (tuple, list, set, frozenset)):
         if is_sym(item) or any(is_sym(c) for c in cont):
             for c in cont:
@@ -1246,9 +1379,14 @@ def __sx_fstr__(*parts):
         if isinstance(p, tuple):
             val, conv, spec = p
             if is_sym(val):
-                if spec not in (None, "") or conv == ord("r"):
-                    raise Unsupported("f-string spec on symbolic value")
-                out.extend(_items(sx_str(val)))
+                if conv == ord("r"):
+                    raise Unsupported("f-string !r on symbolic value")
+                if spec not in (None, ""):
+                    if is_sym(spec):
+                        raise Unsupported("symbolic f-string spec")
+                    out.extend(_items(sx_format_spec(val, spec)))
+                else:
+                    out.extend(_items(sx_str(val)))
             else:
                 if conv == ord("r"):
                     val = repr(val)
